@@ -419,22 +419,22 @@ def gen_parity(rng, logic, engine):
     H = rng.randint(3, 12)
     for v in vs:
         if rng.random() < 0.8:
-            body.append("(assert (and (<= %d %s) (<= %s %d)))" % (-H, v, v, H))
+            body.append("(assert (and (<= %s %s) (<= %s %d)))" % (num(-H), v, v, H))
     for _ in range(rng.randint(1, 3)):
         k = rng.choice([2, 3, 4, 6])
-        ms = ["(* %d %s)" % (k * rng.choice([1, 2, 3, -1, -2]), v) for v in rng.sample(vs, min(n, rng.randint(2, 3)))]
+        ms = ["(* %s %s)" % (num(k * rng.choice([1, 2, 3, -1, -2])), v) for v in rng.sample(vs, min(n, rng.randint(2, 3)))]
         r = rng.randint(1, k - 1) + k * rng.randint(-2, 2)
         if rng.random() < 0.5:
-            body.append("(assert (= (+ %s) %d))" % (" ".join(ms), r))
+            body.append("(assert (or (= (+ %s) %s) (> %s %d)))" % (" ".join(ms), num(r), vs[0], H))
         else:
-            body.append("(assert (and (<= %d (+ %s)) (<= (+ %s) %d)))" % (r, " ".join(ms), " ".join(ms), r + rng.randint(0, k - 2)))
+            body.append("(assert (or (and (<= %s (+ %s)) (<= (+ %s) %s)) (> %s %d)))" % (num(r), " ".join(ms), " ".join(ms), num(r + rng.randint(0, k - 2)), vs[0], H))
     for _ in range(rng.randint(2, 8)):
-        ms = ["(* %d %s)" % (rng.choice([1, 2, 3, 5, -1, -2, -3, -7]), v) for v in rng.sample(vs, min(n, rng.randint(1, 3)))]
+        ms = ["(* %s %s)" % (num(rng.choice([1, 2, 3, 5, -1, -2, -3, -7])), v) for v in rng.sample(vs, min(n, rng.randint(1, 3)))]
         t = ms[0] if len(ms) == 1 else "(+ %s)" % " ".join(ms)
-        l1 = "(%s %s %d)" % (rng.choice(["<=", ">=", "<", ">"]), t, rng.randint(-H, H))
-        ms = ["(* %d %s)" % (rng.choice([1, 2, 3, 5, -1, -2, -3, -7]), v) for v in rng.sample(vs, min(n, rng.randint(1, 3)))]
+        l1 = "(%s %s %s)" % (rng.choice(["<=", ">=", "<", ">"]), t, num(rng.randint(-H, H)))
+        ms = ["(* %s %s)" % (num(rng.choice([1, 2, 3, 5, -1, -2, -3, -7])), v) for v in rng.sample(vs, min(n, rng.randint(1, 3)))]
         t = ms[0] if len(ms) == 1 else "(+ %s)" % " ".join(ms)
-        l2 = "(%s %s %d)" % (rng.choice(["<=", ">=", "<", ">"]), t, rng.randint(-H, H))
+        l2 = "(%s %s %s)" % (rng.choice(["<=", ">=", "<", ">"]), t, num(rng.randint(-H, H)))
         body.append("(assert (or %s %s))" % (l1, l2))
     body.append("(check-sat)")
     return dict(text="\n".join(_hdr(engine, logic, decls) + body + ["(exit)"]) + "\n", logic=logic, engine=engine,
